@@ -2,7 +2,7 @@
 # Re-runs the quick check of every seed's own property (plus extra checks named in meta.json "also_check") against the seed
 # and records the results in the seeds' meta.json; then regenerates seeded/README.md.
 cd "$(dirname "$0")/.."
-for d in seeded/*/*/; do
+for d in seeded/*/; do
   d=${d%/}
   ids="$(jq -r .property $d/meta.json) $(jq -r '(.also_check // []) | join(" ")' $d/meta.json)"
   tools/seed_check.sh $d $ids 2>&1 | grep "^SEED" | cut -c1-200
